@@ -16,31 +16,37 @@ ASSUME_COMMON = [
 ]
 
 
-def tie(theorems, modules=("Qvnt.Lemmas.GenCore", "Qvnt.Lemmas.GenKernels"), audit="Qvnt/Audit/Gen.lean", sources=".*"):
+def tie(theorems, modules=("Qvnt.Lemmas.GenCore", "Qvnt.Lemmas.GenKOps", "Qvnt.Lemmas.GenKFns", "Qvnt.Lemmas.GenKCtor"), audit=None, sources=".*"):
     """translation tie: the Rust functions translated by tools/rs2lean.py on every run are proved equal to
-    the hand-written model by the theorems of `modules` whose names match `theorems`"""
-    return {"modules": list(modules), "theorems": theorems, "audit": audit, "sources": sources}
+    the hand-written model by the theorems of `modules` whose names match `theorems` (kernel equalities by kind:
+    GenKOps the arithmetic, GenKFns is_valid / acts_on / dgr, GenKCtor Op::new; only the modules that hold a named
+    equality are built, the audit is written on the fly)"""
+    return {"modules": list(modules), "theorems": theorems, "select": True, "sources": sources}
+
+
+GEN2_MODULES = ["Qvnt.Lemmas." + m for m in ("GenQuant", "GenOps", "GenBits", "GenH", "GenCtors", "GenQft", "GenSample", "GenVirtl",
+                                               "GenExtOp", "GenTwins", "GenCreg", "GenMeas", "GenSym", "GenInt")]
 
 
 def tie2(theorems, sources, creg=False):
-    """second translator (tools/rs2lean2.py -> Generated/Regs.lean), equalities in Lemmas/GenRegs2.lean and, for the
-    functions that involve the classical register (measure_mask, reset_by_mask, get_by_mask, *, *=, sym.rs), GenRegs3.lean"""
-    mods = ["Qvnt.Lemmas.GenRegs2"] + (["Qvnt.Lemmas.GenRegs3"] if creg else [])
-    return {"translator": "rs2lean2", "modules": mods, "theorems": theorems,
-            "audit": ["Qvnt/Audit/GenRegs2.lean"] + (["Qvnt/Audit/GenRegs3.lean"] if creg else []), "sources": sources}
+    """second translator (tools/rs2lean2.py -> Generated/Regs.lean); the equalities live in one module per source file /
+    subject (GEN2_MODULES); ./check builds the modules that hold an equality named by `theorems` and audits exactly those"""
+    return {"translator": "rs2lean2", "modules": list(GEN2_MODULES), "theorems": theorems, "select": True, "sources": sources}
 
 
 def tie3(theorems, sources):
     """interpreter functions of qasm/int/mod.rs (tools/rs2lean2.py), equalities in Lemmas/GenInt.lean"""
-    return {"translator": "rs2lean2", "modules": ["Qvnt.Lemmas.GenInt"], "theorems": theorems,
-            "audit": "Qvnt/Audit/GenInt.lean", "sources": sources}
+    return tie2(theorems, sources)
+
+
+CANON_MODULES = ["Qvnt.Lemmas.Canon." + m for m in ['IntStruct', 'MacroStruct', 'MacroArgumentName', 'MacroNew', 'MacroProcess', 'MacroProcessNested', 'ParseContext', 'ParseEvalExtended', 'SymStruct', 'SymNew', 'SymInit', 'SymGetClass', 'SymGetProbabilities']]
 
 
 def tiec(items):
     """canonical-text tie (tools/canon.py -> Generated/Canon.lean): the hand-mirrored items named by the regular
-    expression `items` still have the text the model was written against (Lemmas/GenCanon.lean, one theorem each)"""
-    return {"translator": "canon", "modules": ["Qvnt.Lemmas.GenCanon"], "theorems": "(" + items + ")_canon",
-            "audit": "Qvnt/Audit/GenCanon.lean", "sources": r"UNSUPPORTED .*"}
+    expression `items` still have the text the model was written against (Lemmas/Canon/*.lean, one module and theorem each)"""
+    return {"translator": "canon", "modules": list(CANON_MODULES), "theorems": "(" + items + ")_canon", "select": True,
+            "sources": r"UNSUPPORTED .*"}
 
 
 TB_CANON = "canonical-text tie tools/canon.py: for the interpreter code the model still mirrors by hand (macros.rs: Macro::new / process / process_nested; parse.rs: the meval context and eval_extended; the field lists of Int / Macro / Sym; Sym::new / init and its getters - int/mod.rs itself is translated by tools/rs2lean2.py and calls these through the model functions) the current source text, normalised up to comments, layout and names of locals, must be the text the model was written against (tools/canon.json); an edit breaks the named obligation <item>_canon and is then examined by the correspondence suites"
@@ -121,7 +127,7 @@ PROPS = {
     },
     "C11": {
         "modules": ["Qvnt.Props.C11"],
-        "tie": [tie3(r"int_process_(apply_gate|gate|if|node|nodes|node_apply)_eq|int_(ast_changes|add_ast|new)_eq|processNode_disjoint|processApply_macros|foldlM_process|regsOf_eq|argsOf_eq", r"UNSUPPORTED mod\.rs: qasm/int/mod\.rs::(process_(apply_gate|gate|if|node|nodes)|ast_changes|add_ast|new):"), tiec(r"int_struct|macro_\\w+|parse_\\w+|sym_\\w+"), tie(r"creg_(set|xor|reset|get)_eq|notW_eq", modules=("Qvnt.Lemmas.GenRegs",), audit="Qvnt/Audit/GenRegs.lean", sources=r"UNSUPPORTED class\.rs"), tie2(r"creg_get_by_mask_eq|quant_(reset_by_mask|measure_mask|reset)_eq|bitsList_eq|sym_(finish|step|reset)_eq|store_(set|xor)_eq|finish_as_foldlM|mstep_inv", r"UNSUPPORTED (quant\.rs: register/quant\.rs::(reset_by_mask|measure_mask|reset):|class\.rs|bits_iter\.rs|sym\.rs)", creg=True), tie2(r"extop_(push|append)_eq", r"UNSUPPORTED ext_op\.rs"), tie3(r"int_process_(measure|reset|barrier)_eq|int_branch(_with_id)?_eq|int_xor_eq|int_get_[qc]_idx_eq", r"UNSUPPORTED mod\.rs: qasm/int/mod\.rs::(process_(measure|reset|barrier)|branch|branch_with_id|xor|get_[qc]_idx_with_context|get_idx_by_alias):")],
+        "tie": [tie3(r"int_process_(apply_gate|gate|if|node|nodes|node_apply)_eq|int_(ast_changes|add_ast|new)_eq|processNode_disjoint|processApply_macros|foldlM_process|regsOf_eq|argsOf_eq", r"UNSUPPORTED mod\.rs: qasm/int/mod\.rs::(process_(apply_gate|gate|if|node|nodes)|ast_changes|add_ast|new):"), tiec(r"int_struct|macro_\\w+|parse_\\w+|sym_\\w+"), tie(r"creg_(set|xor|reset|get)_eq|notW_eq", modules=("Qvnt.Lemmas.GenRegs",), sources=r"UNSUPPORTED class\.rs"), tie2(r"creg_get_by_mask_eq|quant_(reset_by_mask|measure_mask|reset)_eq|bitsList_eq|sym_(finish|step|reset)_eq|store_(set|xor)_eq|finish_as_foldlM|mstep_inv", r"UNSUPPORTED (quant\.rs: register/quant\.rs::(reset_by_mask|measure_mask|reset):|class\.rs|bits_iter\.rs|sym\.rs)", creg=True), tie2(r"extop_(push|append)_eq", r"UNSUPPORTED ext_op\.rs"), tie3(r"int_process_(measure|reset|barrier)_eq|int_branch(_with_id)?_eq|int_xor_eq|int_get_[qc]_idx_eq", r"UNSUPPORTED mod\.rs: qasm/int/mod\.rs::(process_(measure|reset|barrier)|branch|branch_with_id|xor|get_[qc]_idx_with_context|get_idx_by_alias):")],
         "suites": [suite("intnu", dict(count=600), dict(count=20000))],
         "mismatch_tags": INT_STRUCT,
         "spec_tags": [r"refsem\.(psi|creg|run)", r"c11\..*", r"iexpect\.accept"],
@@ -243,7 +249,7 @@ PROPS = {
     },
     "C14": {
         "modules": ["Qvnt.Props.C14"],
-        "tie": [tie(r"creg_(tensor_prod|with_state|set_num|mask_of|num)_eq", modules=("Qvnt.Lemmas.GenRegs",), audit="Qvnt/Audit/GenRegs.lean", sources=r"UNSUPPORTED class\.rs"), tie2(r"quant_(new|with_state|set_num|reset|tensor_prod|get_probabilities)_eq|creg_(mul|mul_assign|new)_eq", r"UNSUPPORTED (quant\.rs: register/quant\.rs::(new|with_state|set_num|reset|tensor_prod|get_probabilities):|class\.rs)", creg=True)],
+        "tie": [tie(r"creg_(tensor_prod|with_state|set_num|mask_of|num)_eq", modules=("Qvnt.Lemmas.GenRegs",), sources=r"UNSUPPORTED class\.rs"), tie2(r"quant_(new|with_state|set_num|reset|tensor_prod|get_probabilities)_eq|creg_(mul|mul_assign|new)_eq", r"UNSUPPORTED (quant\.rs: register/quant\.rs::(new|with_state|set_num|reset|tensor_prod|get_probabilities):|class\.rs)", creg=True)],
         "suites": [suite("reg", dict(count=500, max_n=6), dict(count=10000, max_n=9))],
         "mismatch_tags": [r"qobs.*", r"tensor.*", r"setnum.*", r"probs", r"polar", r"qvreg", r"creg", r"ctensor", r"cmulassign", r"qstate", r"q2state", r"q2reg"],
         "spec_tags": [r"c14\..*"],
@@ -269,7 +275,7 @@ PROPS = {
     },
     "C20": {
         "modules": ["Qvnt.Props.C20"],
-        "tie": [tie(r"creg_.*_eq|notW_eq", modules=("Qvnt.Lemmas.GenRegs",), audit="Qvnt/Audit/GenRegs.lean", sources=r"UNSUPPORTED class\.rs"), tie2(r"bits_(from|next)_eq|bitsCollect_eq|bitsList_eq|creg_(get_by_mask|mul|mul_assign|new|fmt)_eq|h_(loop|h)_eq|vreg_\w+_eq|quant_get_vreg(_by)?_eq", r"UNSUPPORTED (bits_iter\.rs|class\.rs|h\.rs|virtl\.rs|quant\.rs: register/quant\.rs::get_vreg)", creg=True)],
+        "tie": [tie(r"creg_.*_eq|notW_eq", modules=("Qvnt.Lemmas.GenRegs",), sources=r"UNSUPPORTED class\.rs"), tie2(r"bits_(from|next)_eq|bitsCollect_eq|bitsList_eq|creg_(get_by_mask|mul|mul_assign|new|fmt)_eq|h_(loop|h)_eq|vreg_\w+_eq|quant_get_vreg(_by)?_eq", r"UNSUPPORTED (bits_iter\.rs|class\.rs|h\.rs|virtl\.rs|quant\.rs: register/quant\.rs::get_vreg)", creg=True)],
         "suites": [
             suite("bits", dict(count=500, timeout=60), dict(count=20000, timeout=600)),
         ],
